@@ -6,7 +6,7 @@ From Coq Require Import ZArith List Bool Reals.
 From Flocq Require Import Core.Core IEEE754.BinarySingleNaN.
 Import ListNotations.
 Require Import MS.Base.GoInt MS.Base.F64 MS.Model.Ticks MS.Model.TicksPF MS.Proofs.Ticks_facts MS.Proofs.Ticks_sweep
-  MS.Proofs.Ticks_sweep_all MS.Proofs.Ticks_equiv MS.Proofs.Ticks_accuracy.
+  MS.Proofs.Ticks_sweep_all MS.Proofs.Ticks_equiv MS.Proofs.Ticks_accuracy MS.Proofs.Ticks_seconds_all.
 Local Open Scope Z_scope.
 
 (** Order: for EVERY on-disk timeframe and EVERY pair of offsets inside an interval the encoder
@@ -47,6 +47,22 @@ Theorem C10_1sec_blocks_flocq : forall o, (exists lo, In lo block_starts /\ lo <
   dec_offset 86400 (enc 86400 o) = o.
 Proof. exact sweep_blocks_flocq. Qed.
 Print Assumptions C10_1sec_blocks_flocq.
+
+(** Precision on EVERY whole-second offset of EVERY on-disk timeframe's interval (finite domain: 114701
+    offsets; vm_compute reflection on the mirror, lifted by C10_models_equal): decoded time in the same
+    interval, not after the original, at most one step before it, exact for 1Sec.  Whole seconds are
+    what second-resolution feeds write and the only offsets that reach the decoder's nanosecond carry. *)
+Theorem C10_whole_seconds : forall ipd s, In ipd ipds -> 0 <= s -> s * 1000000000 < interval_ns ipd ->
+  let o := s * 1000000000 in let o' := dec_offset ipd (enc ipd o) in
+  0 <= o' <= o /\ o - o' <= step_ns ipd /\ (ipd = 86400 -> o' = o).
+Proof. exact whole_seconds. Qed.
+Print Assumptions C10_whole_seconds.
+
+(** the four offsets whose nanoseconds round up to 10^9 (the carry branch): decoded exactly *)
+Example C10_carry_cases :
+  dec_offset 8640 (enc 8640 2000000000) = 2000000000 /\ dec_offset 8640 (enc 8640 7000000000) = 7000000000
+  /\ dec_offset 2880 (enc 2880 2000000000) = 2000000000 /\ dec_offset 2880 (enc 2880 17000000000) = 17000000000.
+Proof. vm_compute. repeat split; reflexivity. Qed.
 
 (** Full statement (the property as given): for every timeframe and offset the decoded time lies in
     the same interval, not after the original and at most one resolution step before it; exact for
